@@ -557,7 +557,7 @@ func itemKey(mode, pile, lock string) string {
 // walk returns what may be held after n, and whether control can fall through.
 func (oa *orderAnalysis) walk(c *walkCtx, n *node, in hset) (hset, bool) {
 	switch n.kind {
-	case "skip", "setflag":
+	case "skip", "setflag", "mark":
 		return in, true
 	case "acq":
 		pile := ""
